@@ -29,6 +29,12 @@ Definition expected_hop (pa : path) (t : Z) : hop -> Prop := fun h =>
 
 (** executable prediction for the lab *)
 Fixpoint zs (a : Z) (n : nat) : list Z := match n with O => [] | S k => a :: zs (a + 1) k end.
+(** the same chain when the destination drops the probes (a filtered port): the routers answer, every TTL beyond them
+    stays silent up to the last TTL and nothing is flagged as the destination *)
+Definition predicted_filtered (pa : path) (first last : Z) : list (Z * option Z * bool) :=
+  map (fun t => (t, (if (t =? pa_silent pa) || (pa_n pa <? t) then None else Some (responder pa t)), false))
+      (zs first (Z.to_nat (last - first + 1))).
+
 Definition predicted (pa : path) (first last : Z) : list (Z * option Z * bool) :=
   map (fun t => (t, (if t =? pa_silent pa then None else Some (responder pa t)), (t =? pa_n pa + 1) && negb (t =? pa_silent pa)))
       (zs first (Z.to_nat (Z.min last (pa_n pa + 1) - first + 1))).
